@@ -56,11 +56,13 @@ func makeURLKey(u *url.URL) string {
 	}
 	// RFC 3986 §6.2.2.3: Path normalization (dot-segment removal) is handled by
 	// [url.URL.ResolveReference], which uses the RFC 3986 §5.2.4 algorithm.
-	base, _ := url.Parse(u.Scheme + "://" + u.Host)
+	// The base is built, not parsed: scheme and host of a request URL need not
+	// parse again (no scheme at all, an IPv6 zone, a hand-built URL).
+	base := &url.URL{Scheme: u.Scheme, Host: u.Host}
 	normalized := base.ResolveReference(u)
 
-	// RFC 3986 §6.2.2.1: Scheme is lowercased (already done by [url.Parse]).
-	scheme := normalized.Scheme
+	// RFC 3986 §6.2.2.1: Scheme is lowercased.
+	scheme := strings.ToLower(normalized.Scheme)
 
 	host, port := splitHostPort(normalized.Host)
 	defaultP := defaultPort(scheme)
